@@ -122,6 +122,17 @@ class Check(PropertyCheck):
                 bad = gen.gen_invalid_request(rng, tr, M)
                 if bad:
                     lines.append(f"disp {bad[0]} {bad[1]} {bad[2]}")
+            if rng.random() < 0.05 and max(d for job in jobs for _, d in job) < 2 ** 24:
+                # an observer is attached in the middle of the episode (some of them share helper observers with the ones
+                # already there): attaching is not an event of the dispatcher
+                lines.append("fobs " + rng.choice(["remaining_operations -", "is_completed -", "is_completed mj", "unscheduled -",
+                                                   "duration -", "position_in_job -", "remaining_operations j"]))
+                lines.append("q unsched_observer")
+                burst()
+            if rng.random() < 0.08:
+                pj, pp, pm = gen.gen_valid_request(rng, tr)
+                lines.append(f"peek {pj} {pp} {pm}")        # a look-ahead on a deep copy of the dispatcher
+                burst()
             j, p, m = gen.gen_valid_request(rng, tr)
             tr.take(j)
             lines.append(f"disp {j} {p} {m}")
